@@ -342,7 +342,7 @@ class Runner:
         cov = {
             "obligations": len(ob["theorems"]),
             "discharged": len([t for t in ob["theorems"] if t in self.audit]),
-            "checker_cmd": "cd /verif/lean && lake build %s && lake env lean <(#print axioms of each obligation)  [run by ./check; thorough adds: lake env leanchecker %s]" % (ob["module"], ob["module"]),
+            "checker_cmd": "cd /verif/lean && lake build %s && lake env lean <(#print axioms of each obligation)  [run by ./check; thorough adds: lake env leanchecker on the same modules]" % (" ".join(ob["module"]) if isinstance(ob["module"], list) else ob["module"]),
             "trusted_base": [
                 "Lean 4.33.0 kernel" + (" + leanchecker re-check" if self.audit.get("_leanchecker") else ""),
                 "axioms of every obligation ⊆ {propext, Classical.choice, Quot.sound} (audited on this run: %s)" % json.dumps({k: v for k, v in self.audit.items() if not k.startswith("_")}),
